@@ -33,6 +33,8 @@ type OpResult struct {
 	Panic     string   `json:"panic,omitempty"` // panic value text (monitors only)
 	Matched   int64    `json:"m,omitempty"`
 	Modified  int64    `json:"d,omitempty"`
+	Upserted  int64    `json:"u,omitempty"`
+	Key       string   `json:"key,omitempty"`   // pop/popu: _id of the returned job; claim: the job addressed
 	Doc       string   `json:"doc,omitempty"`   // findOneAndUpdate: returned document
 	Docs      []string `json:"docs,omitempty"`  // find: contents
 	Has       bool     `json:"has,omitempty"`   // next/trynext returned true
@@ -153,14 +155,16 @@ type World struct {
 	stale    map[int]*lungo.Transaction // finished handles (for the misuse op estale)
 	History  []HRec
 	seq      int
+	Queue    int    // number of preloaded jobs in db.q
 	FilePath string // file of the FileStore ("" = memory store)
 	Old      []*Ev  // oplog before the scenario (targets of the hand-made start positions old:<k>, oldtime:<k>)
 }
 
 // DB and Coll are the default namespace of the scenarios.
 const (
-	DB   = "db"
-	Coll = "c"
+	DB        = "db"
+	Coll      = "c"
+	QueueColl = "q" // the job queue of the read-modify-write scenarios (Scenario.Queue jobs j1..jN, prio i, state ready)
 )
 
 // WorldOptions configures the engine of a world.
@@ -232,6 +236,8 @@ func Classify(err error) string {
 		return "lost"
 	case errors.Is(err, errCallback):
 		return "callback"
+	case errors.Is(err, mongo.ErrNoDocuments):
+		return "nodoc"
 	}
 	s := err.Error()
 	switch {
@@ -284,7 +290,7 @@ func (w *World) record(h HRec) {
 // modelCall gives the model-level call of a simple op.
 func modelCall(op Op) CallInfo {
 	switch op.Kind {
-	case "ins", "ins3", "inc", "fau", "upd0", "dup", "bad", "del", "drop", "dropdb":
+	case "ins", "ins3", "inc", "fau", "upd0", "dup", "bad", "del", "drop", "dropdb", "pop", "popu", "claim", "ups", "rups":
 		return CallInfo{Call: "useTx", Lock: true, Sess: op.Sess, Op: op.Kind}
 	case "find":
 		return CallInfo{Call: "useTx", Lock: false, Sess: op.Sess, Op: op.Kind}
@@ -413,6 +419,68 @@ func (w *World) call(ctx context.Context, a *actor, idx, sub int, op Op, inWtx b
 			r, e := w.coll(op).InsertMany(ctx, docs)
 			if r != nil {
 				res.Matched = int64(len(r.InsertedIDs))
+			}
+			return e
+		})
+		res.Wrote = err == nil
+	case "pop", "popu":
+		// a queue "pop": read-modify-write in ONE call — the best ready job by priority is deleted (pop)
+		// or marked taken (popu) and returned
+		q := w.Client.Database(DB).Collection(QueueColl)
+		filter := bson.D{{Key: "state", Value: "ready"}}
+		srt := bson.D{{Key: "prio", Value: -1}}
+		err = with(func(ctx context.Context) error {
+			var out bson.D
+			var e error
+			if op.Kind == "pop" {
+				e = q.FindOneAndDelete(ctx, filter, options.FindOneAndDelete().SetSort(srt)).Decode(&out)
+			} else {
+				e = q.FindOneAndUpdate(ctx, filter, bson.D{{Key: "$set", Value: bson.D{{Key: "state", Value: "taken"}, {Key: "by", Value: tag}}}},
+					options.FindOneAndUpdate().SetSort(srt).SetReturnDocument(options.After)).Decode(&out)
+			}
+			if e == nil {
+				res.Doc = canon(out)
+				res.Matched = 1
+				for _, el := range out {
+					if el.Key == "_id" {
+						res.Key, _ = el.Value.(string)
+					}
+				}
+			}
+			return e
+		})
+		res.Wrote = err == nil
+	case "claim":
+		// another client changes the state of ONE specific job (by default the best one), so that it
+		// stops matching the pops' filter
+		n := op.N
+		if n <= 0 {
+			n = w.Queue
+		}
+		id := fmt.Sprintf("j%d", n)
+		res.Key = id
+		err = with(func(ctx context.Context) error {
+			r, e := w.Client.Database(DB).Collection(QueueColl).UpdateOne(ctx, bson.D{{Key: "_id", Value: id}, {Key: "state", Value: "ready"}},
+				bson.D{{Key: "$set", Value: bson.D{{Key: "state", Value: "claimed"}, {Key: "by", Value: tag}}}})
+			if r != nil {
+				res.Matched, res.Modified = r.MatchedCount, r.ModifiedCount
+			}
+			return e
+		})
+		res.Wrote = err == nil && res.Modified > 0
+	case "ups", "rups":
+		// UpdateOne / ReplaceOne with upsert on one fixed key: exactly one of several concurrent calls inserts
+		err = with(func(ctx context.Context) error {
+			q := w.Client.Database(DB).Collection(QueueColl)
+			var r *mongo.UpdateResult
+			var e error
+			if op.Kind == "ups" {
+				r, e = q.UpdateOne(ctx, bson.D{{Key: "_id", Value: "u"}}, bson.D{{Key: "$inc", Value: bson.D{{Key: "n", Value: int64(1)}}}, {Key: "$set", Value: bson.D{{Key: "by", Value: tag}}}}, options.Update().SetUpsert(true))
+			} else {
+				r, e = q.ReplaceOne(ctx, bson.D{{Key: "_id", Value: "r"}}, bson.D{{Key: "_id", Value: "r"}, {Key: "by", Value: tag}}, options.Replace().SetUpsert(true))
+			}
+			if r != nil {
+				res.Matched, res.Modified, res.Upserted = r.MatchedCount, r.ModifiedCount, r.UpsertedCount
 			}
 			return e
 		})
